@@ -1,4 +1,4 @@
-\* quick tier, design-level model checking, generating-machine half: every change of <= 3 elements (ids 1..2,
+\* quick tier, design-level model checking, generating-machine half: every change of <= 2 elements (ids 1..3,
 \* versions 2..3, <= 2 per cell) over two worlds of histories
 CONSTANTS
   HMax = 0
@@ -6,8 +6,8 @@ CONSTANTS
   BothVis = FALSE
   PairVers = {}
   NRandom = 0
-  BuildMax = 3
-  BuildIds = {1, 2}
+  BuildMax = 2
+  BuildIds = {1, 2, 3}
   StaticInit = FALSE
 INIT Init
 NEXT Next
